@@ -283,6 +283,12 @@ def _loop_validates(ctx, module, loop: ast.For) -> bool:
             raises = any(isinstance(n, ast.Raise) for b in (sub.body, sub.orelse) for s in b for n in ast.walk(s))
             if mentions_table and raises:
                 return True
+            # guard-clause form:  if key in TABLE: continue  /  raise KeyError(...)
+            skips = any(isinstance(n, ast.Continue) for s in sub.body for n in ast.walk(s))
+            later_raise = any(isinstance(n, ast.Raise) for st in loop.body for n in ast.walk(st)
+                              if getattr(st, "lineno", 0) > getattr(sub, "lineno", 0))
+            if mentions_table and skips and later_raise and not sub.orelse:
+                return True
     return False
 
 
